@@ -101,6 +101,16 @@ def worker_main() -> None:
         if task.get("quit"):
             break
         limit = _run_limit(task)
+        uses_ref = False
+        try:
+            pm = prop_module(task["prop"])
+            if getattr(pm, "REF_SERVER", False):
+                from . import refcompile
+
+                refcompile.start_server(pm.ref_env(), PY, VERIF)
+                uses_ref = True
+        except Exception:
+            uses_ref = False        # the run falls back to a one-shot reference process
         rfd, wfd = os.pipe()
         pid = os.fork()
         if pid == 0:
@@ -143,6 +153,10 @@ def worker_main() -> None:
             except OSError:
                 pass
         os.waitpid(pid, 0)
+        if timed_out and uses_ref:
+            from . import refcompile
+
+            refcompile.stop_server()      # it may still be busy with the killed run's request
         if timed_out:
             ans = {"id": task["id"], "result": {"status": "harness-timeout"}}
         else:
